@@ -9,6 +9,7 @@
 //        X<a>:<u>             task_arena a .execute(unit u)        (the current arena, or one with a larger index: no wait cycles)
 //        E<a>:<u>             task_arena a .enqueue(unit u)
 //        I<u>                 this_task_arena::isolate(unit u)
+//        H<k>                 this_task_arena::isolate( task_group with a deferred task_handle, wait ): the handle is dropped k points later by a helper thread, which ends the wait
 //        P<n>:<k>:<part>      parallel_for over n one-index bodies of k work (part 0 simple, 1 auto, 2 static = mailed)
 //        G<u>,<u>..           task_group: run the units, wait (nested wait)
 // Every X/E/G unit and every P index is a *body*; oracle in body_enter().  Rounds are separated by quiescent points (every other
@@ -37,7 +38,8 @@ static int gen_unit(GenSt& g, int arena, int depth) {
         bool sub = depth < 3 && g.budget > 0;
         bool noenq = drv_flag("--noenq");      // focused leg: limit 1, nothing is ever enqueued, no arena can be full -> no worker may ever run a body
         uint32_t c = g.s.weighted({ 3, 3, sub ? 2u : 0u, sub ? (noenq ? 4u : 2u) : 0u, sub ? 2u : 0u, (sub && !noenq) ? 1u : 0u });
-        if (c == 0) o += " W" + std::to_string(g.s.range(1, 6));
+        if (c == 0 && g.s.coin(noenq ? 3 : 8)) o += " H" + std::to_string(g.s.range(2, 30));      // an isolated wait that another thread ends later: tasks of other scopes stay in the waiter's pool meanwhile
+        else if (c == 0) o += " W" + std::to_string(g.s.range(1, 6));
         else if (c == 1) { static const int ns[] = { 2, 3, 5, 8 }; o += " P" + std::to_string(ns[g.s.choose(4)]) + ":" + std::to_string(g.s.range(1, 4)) + ":" + std::to_string((int)g.s.weighted({ 4, 1, 2 })); }
         else if (c == 2) { int n = 1 + (int)g.s.weighted({ 2, 3, 1 }); o += " G"; for (int i = 0; i < n && (i == 0 || g.budget > 0); i++) o += (i ? "," : "") + gen_sub(g, arena, depth + 1); }
         else if (c == 3) o += " I" + gen_sub(g, arena, depth + 1);
@@ -233,9 +235,33 @@ static void gc_op(const Op& op, bool quiescent) {
     }
     if (!quiescent) n_mid_limit++;
 }
+// H: the wait of a task_group is kept open by a deferred task_handle that a helper thread (no arena, no bodies) drops later: dropping an unrun
+// handle releases the group's wait reference.  Meanwhile the waiting thread sits in the scheduler under its isolation tag.
+struct Held { tbb::task_handle h; int k; };
+static std::vector<Held*> g_held; static bool g_releaser_stop = false; static long n_held_waits = 0;
+static void releaser_main(void*) {
+    for (;;) {
+        vs_block_until([] { return !g_held.empty() || g_releaser_stop; });
+        if (g_held.empty()) return;
+        Held* x = g_held.front(); g_held.erase(g_held.begin());
+        vs_work(x->k);
+        x->k = -1;                      // from here on the wait may end
+        x->h = tbb::task_handle();      // drop
+    }
+}
 static void run_ops(const std::vector<Op>& ops) {
     for (auto& op : ops) {
         switch (op.c) {
+        case 'H': {
+            long tag = next_tag++; int k = op.a; n_held_waits++;
+            tbb::this_task_arena::isolate([tag, k] {
+                ts.tags.push_back(tag);
+                tbb::task_group tg; Held x; x.k = k; x.h = tg.defer([] {});
+                g_held.push_back(&x);
+                tg.wait();
+                if (x.k != -1) vs_violation("WAIT-RETURNED-EARLY", "task_group::wait returned while a deferred task_handle of the group was still alive");
+                ts.tags.pop_back(); });
+            break; }
         case 'W': vs_work(op.a); break;
         case '+': case '-': gc_op(op, false); break;
         case 'X': {
@@ -385,7 +411,7 @@ void h_run(Case& c) {
             AR[i].ta = new tbb::task_arena(AR[i].mc, (unsigned)AR[i].res, pr);
             AR[i].obs = new Obs(*AR[i].ta, (int)i); AR[i].obs->observe(true);
         }
-        std::vector<int> tids;
+        std::vector<int> tids; int rel_tid = vs_thread_start(releaser_main, nullptr);
         for (int e = 1; e < g_ext; e++) tids.push_back(vs_thread_start(ext_main, (void*)(intptr_t)e));
         for (int r = 0; r < g_rounds; r++) {
             if (r > 0 || !G_[(size_t)r].empty()) vs_wait_quiescent();
@@ -400,6 +426,7 @@ void h_run(Case& c) {
             quiescent_checks("end of round");
         }
         for (int t : tids) vs_thread_join(t);
+        g_releaser_stop = true; vs_thread_join(rel_tid);
         if (allot) allotment_phase(allot);
         for (auto& a : AR) a.obs->observe(false);
         for (auto& kv : GC) delete kv.second;
@@ -410,7 +437,7 @@ void h_run(Case& c) {
     vs_stat_add("n_units", nsub); vs_stat_add("n_bodies", n_bodies); vs_stat_add("n_worker_bodies", n_worker_bodies); vs_stat_add("n_delegated", n_delegated); vs_stat_add("n_extra_worker", n_extra_worker);
     vs_stat_add("n_iso_wait_exec", n_iso_wait_exec); vs_stat_add("n_mid_limit", n_mid_limit); vs_stat_add("n_slot_reuse", n_slot_reuse); vs_stat_add("n_observer_entries", entries); vs_stat_add("n_excluded", n_excluded + kvl(c.lines[0], "clamped", 0));
     vs_stat_max("max_in_arena", max_in); vs_stat_max("max_workers", max_workers_seen);
-    if (n_x_inplace_certain) vs_stat_flag("execute_certainly_in_place_under_limit_1"); if (n_x_wrongly_certain) vs_stat_flag("execute_delegated_although_arena_not_full"); if (n_worker_bodies) vs_stat_flag("worker_in_arena"); if (n_delegated) vs_stat_flag("delegated_execute"); if (n_extra_worker) vs_stat_flag("extra_worker_slot"); if (n_iso_wait_exec) vs_stat_flag("body_started_in_isolated_wait");
+    if (n_held_waits) vs_stat_flag("isolated_wait_held_open_from_outside"); if (n_x_inplace_certain) vs_stat_flag("execute_certainly_in_place_under_limit_1"); if (n_x_wrongly_certain) vs_stat_flag("execute_delegated_although_arena_not_full"); if (n_worker_bodies) vs_stat_flag("worker_in_arena"); if (n_delegated) vs_stat_flag("delegated_execute"); if (n_extra_worker) vs_stat_flag("extra_worker_slot"); if (n_iso_wait_exec) vs_stat_flag("body_started_in_isolated_wait");
     if (n_mid_limit) vs_stat_flag("limit_changed_while_running"); if (n_slot_reuse) vs_stat_flag("slot_reused_by_other_thread"); if (n_nested_arena) vs_stat_flag("nested_arena"); if (n_budget_tight) vs_stat_flag("worker_budget_reached");
     if (n_excluded) vs_stat_flag("excluded_external_in_extra_slot"); if (n_ext_nonreserved) vs_stat_flag("external_in_nonreserved_slot");
     vs_stat_add("nt", (max_in >= 2 && entries > 0) ? 1 : 0);
